@@ -368,7 +368,7 @@ def judge_candidates(self, cand):
             key = dict(clause='membership', shape=shape(e), library=v[2])
             wit = dict(program=prog + [render(('emit', ('contains', probe_recipe(v[1]), '$s')))], point=str(v[1]), library=v[2], reference=not v[2], api=_api(mem), config='asan')
         elif kind == 'overflow':
-            key = dict(clause='crash', kind='asan:stack-overflow', shape=shape(e), through_complement=any(n.startswith('Complement::') for n in v[2]))
+            key = dict(clause='crash', kind='asan:stack-overflow', shape=shape(e), through_complement=any('set_complement' in n or n.startswith('Complement::') for n in v[2]))
             wit = dict(program=prog, api=_api(mem), recursion=v[2], config='asan')
         else:
             key = dict(clause='hang', shape=shape(e))
